@@ -40,9 +40,9 @@ type part[X sigma.Statement, W sigma.Witness, A sigma.Statement, S sigma.State, 
 	// mkVerifier: the verifying side's protocol object when it is built from public material only
 	mkVerifier func(prng io.Reader) (sigma.Protocol[X, W, A, S, Z], error)
 	compilers  []compiler.Name // nil: all three
-	fresh     func(i int) (X, W)
-	alts      func(x X) []negStmt[X] // the statement with one component altered / moved / dropped
-	extract   func(p sigma.Protocol[X, W, A, S, Z], x X, a A, es []sigma.ChallengeBytes, zs []Z) (W, error)
+	fresh      func(i int) (X, W)
+	alts       func(x X) []negStmt[X] // the statement with one component altered / moved / dropped
+	extract    func(p sigma.Protocol[X, W, A, S, Z], x X, a A, es []sigma.ChallengeBytes, zs []Z) (W, error)
 }
 
 func (p *part[X, W, A, S, Z]) inst(protoName, group string, order *big.Int) inst {
@@ -231,11 +231,11 @@ func buildG[G algebra.PrimeGroupElement[G, S], S algebra.PrimeFieldElement[S]](s
 func schnorrPart[G algebra.PrimeGroupElement[G, S], S algebra.PrimeFieldElement[S]](e *env[G, S], genClass, wclass, tag string,
 ) *part[*schnorr.Statement[G, S], *schnorr.Witness[S], *schnorr.Commitment[G, S], *schnorr.State[S], *schnorr.Response[S]] {
 	type (
-		X = *schnorr.Statement[G, S]
-		W = *schnorr.Witness[S]
-		A = *schnorr.Commitment[G, S]
+		X  = *schnorr.Statement[G, S]
+		W  = *schnorr.Witness[S]
+		A  = *schnorr.Commitment[G, S]
 		St = *schnorr.State[S]
-		Z = *schnorr.Response[S]
+		Z  = *schnorr.Response[S]
 	)
 	gen := e.grp.Generator()
 	if genClass == "rnd" {
@@ -271,11 +271,11 @@ func schnorrPart[G algebra.PrimeGroupElement[G, S], S algebra.PrimeFieldElement[
 func batchPart[G algebra.PrimeGroupElement[G, S], S algebra.PrimeFieldElement[S]](e *env[G, S], k int, genClass, wclass string,
 ) *part[*batch_schnorr.Statement[G, S], *batch_schnorr.Witness[S], *batch_schnorr.Commitment[G, S], *batch_schnorr.State[S], *batch_schnorr.Response[S]] {
 	type (
-		X = *batch_schnorr.Statement[G, S]
-		W = *batch_schnorr.Witness[S]
-		A = *batch_schnorr.Commitment[G, S]
+		X  = *batch_schnorr.Statement[G, S]
+		W  = *batch_schnorr.Witness[S]
+		A  = *batch_schnorr.Commitment[G, S]
 		St = *batch_schnorr.State[S]
-		Z = *batch_schnorr.Response[S]
+		Z  = *batch_schnorr.Response[S]
 	)
 	gen := e.grp.Generator()
 	if genClass == "rnd" {
@@ -328,11 +328,11 @@ func batchPart[G algebra.PrimeGroupElement[G, S], S algebra.PrimeFieldElement[S]
 func okamotoPart[G algebra.PrimeGroupElement[G, S], S algebra.PrimeFieldElement[S]](e *env[G, S], m int, wclass string,
 ) *part[*okamoto.Statement[G, S], *okamoto.Witness[S], *okamoto.Commitment[G, S], *okamoto.State[S], *okamoto.Response[S]] {
 	type (
-		X = *okamoto.Statement[G, S]
-		W = *okamoto.Witness[S]
-		A = *okamoto.Commitment[G, S]
+		X  = *okamoto.Statement[G, S]
+		W  = *okamoto.Witness[S]
+		A  = *okamoto.Commitment[G, S]
 		St = *okamoto.State[S]
-		Z = *okamoto.Response[S]
+		Z  = *okamoto.Response[S]
 	)
 	gens := make([]G, m)
 	for i := range gens {
@@ -446,11 +446,11 @@ func (s *egSetup[G, S]) alter(x *elcomop.Statement[G, S], idx int) *elcomop.Stat
 func elcomopPart[G algebra.PrimeGroupElement[G, S], S algebra.PrimeFieldElement[S]](e *env[G, S],
 ) *part[*elcomop.Statement[G, S], *elcomop.Witness[G, S], *elcomop.Commitment[G, S], *elcomop.State[G, S], *elcomop.Response[G, S]] {
 	type (
-		X = *elcomop.Statement[G, S]
-		W = *elcomop.Witness[G, S]
-		A = *elcomop.Commitment[G, S]
+		X  = *elcomop.Statement[G, S]
+		W  = *elcomop.Witness[G, S]
+		A  = *elcomop.Commitment[G, S]
 		St = *elcomop.State[G, S]
-		Z = *elcomop.Response[G, S]
+		Z  = *elcomop.Response[G, S]
 	)
 	su := newEgSetup(e)
 	return &part[X, W, A, St, Z]{
@@ -477,11 +477,11 @@ func elcomopPart[G algebra.PrimeGroupElement[G, S], S algebra.PrimeFieldElement[
 func elogPart[G algebra.PrimeGroupElement[G, S], S algebra.PrimeFieldElement[S]](e *env[G, S],
 ) *part[*elog.Statement[G, S], *elog.Witness[G, S], *elog.Commitment[G, S], *elog.State[G, S], *elog.Response[G, S]] {
 	type (
-		X = *elog.Statement[G, S]
-		W = *elog.Witness[G, S]
-		A = *elog.Commitment[G, S]
+		X  = *elog.Statement[G, S]
+		W  = *elog.Witness[G, S]
+		A  = *elog.Commitment[G, S]
 		St = *elog.State[G, S]
-		Z = *elog.Response[G, S]
+		Z  = *elog.Response[G, S]
 	)
 	su := newEgSetup(e)
 	h := e.point("elog-h")
